@@ -90,6 +90,12 @@ def enumerate_cases(tier, scope):
     singles += [['continue', 1, None, False], ['continue', 1, 'a', True], ['bogus']]
     singles += [['execute', 'F', 1, nowait, no_reply] for nowait in (False, True) for no_reply in (False, True)]
     if scope == 'single':
+        for p in ('memory', 'pickle', 'none'):
+            for prog in ('F',):
+                for nowait in (False, True):
+                    for no_reply in (False, True):
+                        yield {'persister': p, 'loader': 'default', 'via': 'comm', 'load_context': 'none', 'client': 'thread', 'ops': [['execute', prog, 1, nowait, no_reply]]}
+    if scope == 'single':
         for cfg in configs:
             for op in singles:
                 yield {'persister': cfg[0], 'loader': cfg[1], 'via': cfg[2], 'load_context': cfg[3], 'ops': [op]}
@@ -381,23 +387,39 @@ def execute(case):
                 # the client-side shorthand RemoteProcessController.execute_process = create (persisting) then continue,
                 # with the caller's nowait / no_reply flags
                 prog, pid, nowait, no_reply = op[1], op[2], op[3], op[4]
-                if comm is None or persister is None:
+                thread_client = case.get('client') == 'thread' and comm is not None
+                if comm is None or (persister is None and not thread_client):
                     hist.append(op)
                     continue
                 classes.add('execute')
                 ident_loader = custom if loader is not None else None
                 with loop.as_running():
-                    ctl = process_comms.RemoteProcessController(comm)
-                    task = loop.create_task(ctl.execute_process(classes_by_prog[prog], init_kwargs={'pid': pid}, loader=ident_loader, nowait=nowait, no_reply=no_reply))
-                    task._pv_owned = True
+                    if thread_client:
+                        # the same shorthand of the client for synchronous code (a kiwipy future comes back)
+                        classes.add('client:thread-controller')
+                        task = process_comms.RemoteProcessThreadController(inner_comm).execute_process(classes_by_prog[prog], init_kwargs={'pid': pid}, loader=ident_loader, nowait=nowait, no_reply=no_reply)
+                    else:
+                        ctl = process_comms.RemoteProcessController(comm)
+                        task = loop.create_task(ctl.execute_process(classes_by_prog[prog], init_kwargs={'pid': pid}, loader=ident_loader, nowait=nowait, no_reply=no_reply))
+                        task._pv_owned = True
                 loop.drain()
+                if persister is None:
+                    # nothing can be persisted, so the create half is refused: the caller is told, it is not left waiting
+                    classes.add('rejected')
+                    out = _fut_outcome(task)
+                    if out[0] != 'raise':
+                        v('execute-failure-not-reported', f'{where}: the create task cannot succeed without a persister, yet execute_process gave {out!r}')
+                    if adopt_new('?', 0, True, 'execute', before):
+                        v('rejected-task-had-effect', f'{where}: a process appeared')
+                    hist.append(op)
+                    continue
                 new = known_instances()[before:]
                 created = [p for p in new if p.state.value == 'created' and not any(e['k'] == 'enter' and e['oid'] == id(p) for e in w.trace.get(p.pid, []))]
                 if prog == 'U':
                     # the class is named by the loader handed to execute_process(): the create part works (the continue
                     # part depends on whether the persister can name the class, which is not judged here)
                     if len(created) != 1:
-                        outcome = task.exception() if task.done() and not task.cancelled() else None
+                        outcome = _fut_outcome(task)
                         v('execute-loader-dropped', f'{where}: no process was created for a class that only the given loader can name ({outcome!r})')
                 elif len(new) != 2 or len(created) != 1:
                     v('execute-instances', f'{where}: expected one created and one continued instance, got {[(p.pid, p.state.value) for p in new]}')
@@ -406,7 +428,7 @@ def execute(case):
                     instances.append({'proc': created[0], 'prog': prog, 'base': 0, 'started': False, 'origin': 'create'})
                     instances.append({'proc': runner, 'prog': prog, 'base': 0, 'started': True, 'origin': 'continue'})
                     store[(pid, None)] = (prog, 0)
-                    out = ('ok', task.result()) if task.done() and not task.cancelled() and task.exception() is None else (('raise', task.exception()) if task.done() and not task.cancelled() else ('pending',))
+                    out = _fut_outcome(task)
                     want = ('ok', None) if no_reply else (('ok', pid) if nowait else ('ok', OUTPUTS[prog]))
                     if out != want:
                         v('execute-reply', f'{where}: execute_process returned {out!r}, expected {want!r}')
